@@ -150,9 +150,12 @@ class SymDT:
     __hash__ = None
     _symx = True
 
-    def __init__(self, us, win=None):
+    def __init__(self, us, win=None, fields=None):
         self.us = us if isinstance(us, Sym) else Sym(lift(us))
         self.win = win or DEFAULT_WINDOW
+        # calendar fields this instant was *constructed from* (kept so that reading them back
+        # is syntactic instead of a solver-level calendar decomposition)
+        self.fields = fields
 
     @staticmethod
     def of(x, win=None):
@@ -238,31 +241,55 @@ class SymDT:
 
     @property
     def year(self):
-        return self._month_start()[1]
+        if self.fields is not None and self.fields.get("year") is not None:
+            v = self.fields["year"]
+            return Sym(lift(v), width=4) if "year" == "year" else (v if isinstance(v, Sym) else Sym(lift(v)))
+        y = self._month_start()[1]
+        if isinstance(y, Sym):
+            y = Sym(y.t, width=4)      # str(year) shows four digits (years 1000..9999)
+        return y
 
     @property
     def month(self):
+        if self.fields is not None and self.fields.get("month") is not None:
+            v = self.fields["month"]
+            return Sym(lift(v), width=4) if "month" == "year" else (v if isinstance(v, Sym) else Sym(lift(v)))
         return self._month_start()[2]
 
     @property
     def day(self):
+        if self.fields is not None and self.fields.get("day") is not None:
+            v = self.fields["day"]
+            return Sym(lift(v), width=4) if "day" == "year" else (v if isinstance(v, Sym) else Sym(lift(v)))
         ms = self._month_start()[0]
         return (self.us - ms) // US_DAY + 1
 
     @property
     def hour(self):
+        if self.fields is not None and self.fields.get("hour") is not None:
+            v = self.fields["hour"]
+            return Sym(lift(v), width=4) if "hour" == "year" else (v if isinstance(v, Sym) else Sym(lift(v)))
         return (self.us % US_DAY) // (3600 * 10 ** 6)
 
     @property
     def minute(self):
+        if self.fields is not None and self.fields.get("minute") is not None:
+            v = self.fields["minute"]
+            return Sym(lift(v), width=4) if "minute" == "year" else (v if isinstance(v, Sym) else Sym(lift(v)))
         return (self.us % (3600 * 10 ** 6)) // (60 * 10 ** 6)
 
     @property
     def second(self):
+        if self.fields is not None and self.fields.get("second") is not None:
+            v = self.fields["second"]
+            return Sym(lift(v), width=4) if "second" == "year" else (v if isinstance(v, Sym) else Sym(lift(v)))
         return (self.us % (60 * 10 ** 6)) // 10 ** 6
 
     @property
     def microsecond(self):
+        if self.fields is not None and self.fields.get("microsecond") is not None:
+            v = self.fields["microsecond"]
+            return Sym(lift(v), width=4) if "microsecond" == "year" else (v if isinstance(v, Sym) else Sym(lift(v)))
         return self.us % 10 ** 6
 
     def date(self):
@@ -371,7 +398,49 @@ def from_fields(win, year, month, day=1, hour=0, minute=0, second=0, microsecond
     if not bool(Or(*feas)):
         raise OutsideWindow("date outside the calendar window %s" % win.describe())
     us = base + (day - 1) * US_DAY + ((hour * 60 + minute) * 60 + second) * 10 ** 6 + microsecond
-    return SymDT(us, win)
+    return SymDT(us, win, fields={"year": year, "month": month, "day": day, "hour": hour, "minute": minute,
+                                  "second": second, "microsecond": microsecond})
+
+
+def days_in_month(win, year, month):
+    """Sym: number of days of (year, month) inside the window"""
+    import calendar
+    r = None
+    for (mus, yy, mm) in win.months:
+        dim = calendar.monthrange(yy, mm)[1]
+        c = And(Sym(lift(year)) == yy, Sym(lift(month)) == mm)
+        r = Sym(z3.IntVal(dim)) if r is None else Ite(c, dim, r)
+    return r
+
+
+def sym_datetime_fields(ctx, name, win, resolution="microsecond"):
+    """symbolic instant given by its calendar fields (valid date inside the window), with the
+    fields below `resolution` zero.  Concrete mode returns a real datetime."""
+    order = ["year", "month", "day", "hour", "minute", "second", "millisecond", "microsecond"]
+    keep = order[:order.index(resolution) + 1]
+    years = sorted({v[1] for v in win.months})
+    y = ctx.int(name + "_year", years[0], years[-1])
+    m = ctx.int(name + "_month", 1, 12) if "month" in keep else 1
+    d = ctx.int(name + "_day", 1, 31) if "day" in keep else 1
+    h = ctx.int(name + "_hour", 0, 23) if "hour" in keep else 0
+    mi = ctx.int(name + "_minute", 0, 59) if "minute" in keep else 0
+    sec = ctx.int(name + "_second", 0, 59) if "second" in keep else 0
+    if "microsecond" in keep:
+        us = ctx.int(name + "_microsecond", 0, 999999)
+    elif "millisecond" in keep:
+        us = ctx.int(name + "_millisecond", 0, 999) * 1000
+    else:
+        us = 0
+    if ctx.mode == "concrete":
+        import calendar
+        if (y, m) not in [(v[1], v[2]) for v in win.months] or d > calendar.monthrange(y, m)[1]:
+            raise core.Infeasible("invalid date")
+        return _datetime(y, m, d, h, mi, sec, us)
+    inwin = Or(*[And(y == yy, (m == mm) if isinstance(m, Sym) else (m == mm)) for (_, yy, mm) in win.months])
+    ctx.assume(inwin)
+    if isinstance(d, Sym):
+        ctx.assume(d <= days_in_month(win, y, m))
+    return from_fields(win, y, m, d, h, mi, sec, us)
 
 
 class DatetimeProxy:
